@@ -8,6 +8,8 @@ def status(r):
     h = r['history']
     if h.startswith('caught'):
         return 'caught'
+    if h.startswith('MISSED by the check as it stood (third'):
+        return '**missed -> strengthened**'
     if h.startswith('MISSED by the check as it stood'):
         return '**missed -> extended on reading the report**'
     if h.startswith('MISSED'):
